@@ -1,26 +1,163 @@
-//! C07: not implemented yet.
+//! C07: assembly-level optimisations preserve behaviour.
+//! Monitor (hook H2): the same program compiled with the abstract-instruction optimiser fully
+//! enabled and with a mask that disables all / some of its seven sub-optimisations; both
+//! binaries run on the same inputs, observations compared.
 use crate::common::*;
+use crate::engine::*;
+use crate::swrun::*;
 use crate::{Plan, Prop};
+use serde_json::{json, Value};
+use std::panic::AssertUnwindSafe;
 
 pub static META: PropertyMeta = PropertyMeta {
     id: "C07",
     level: "exploration",
-    rule: "not implemented",
-    assumptions: &[],
-    floor_evaluations: 1,
-    floor_nontrivial: 2,
-    required_counters: &[],
+    rule: "SwGen programs (constant-rich and aggregate-heavy modes weighted up) x {debug, release} x asm-optimiser masks {none, each of the 7 sub-optimisations switched off, each alone}; full-optimisation build vs masked build on 10 input vectors; an evaluation = one (program, profile, mask); non-trivial = the masked bytecode differs from the fully optimised one and at least one execution returned normally; distinct = hash of (source, profile, mask)",
+    assumptions: &["fuel-vm 0.66 is the trusted execution substrate", "a mask under which the program no longer compiles (e.g. an immediate no longer fits) is inconclusive, counted"],
+    floor_evaluations: 100,
+    floor_nontrivial: 30,
+    required_counters: &["masks_compared", "mask_changed_bytecode", "executions_compared", "mask.none"],
 };
 
 pub static PROP: Prop = Prop {
     meta: &META,
-    plan: |_t| Plan { nshards: 1, budget_s: 1.0, mem_gib: 0 },
-    shard: |_ctx| {
-        let mut r = ShardResult::default();
-        r.harness_fault = Some("not implemented".into());
-        r
-    },
-    replay: crate::no_replay,
+    plan: |t| Plan { nshards: 16, budget_s: t.pick(55.0, 1000.0), mem_gib: 6 },
+    shard,
+    replay,
     extra: crate::no_extra,
     subcommand: crate::no_subcommand,
 };
+
+const ALL: u32 = 0x7f;
+const NAMES: [&str; 7] = ["const_indexing_aggregates", "constant_propagate", "dce", "simplify_cfg", "remove_sequential_jumps", "remove_redundant_moves", "remove_redundant_ops"];
+
+fn masks() -> Vec<(u32, String)> {
+    let mut v = vec![(0u32, "none".to_string())];
+    for (i, n) in NAMES.iter().enumerate() {
+        v.push((ALL ^ (1 << i), format!("without_{n}")));
+        v.push((1 << i, format!("only_{n}")));
+    }
+    v
+}
+
+struct MaskGuard;
+impl Drop for MaskGuard {
+    fn drop(&mut self) {
+        sway_core::verif::set_asm_opt_mask(None);
+    }
+}
+
+fn compile_masked(am: &mut Amortised, src: &str, profile: Profile, mask: Option<u32>) -> Result<anyhow::Result<Compiled>, (String, String)> {
+    sway_core::verif::set_asm_opt_mask(mask);
+    let _g = MaskGuard;
+    catch(AssertUnwindSafe(|| am.compile("gencase", src, profile)))
+}
+
+fn run_one(am: &mut Amortised, case: &Case, profile: Profile, full: &Compiled, full_obs: &[Observation], mask: u32, name: &str, res: &mut ShardResult) {
+    res.evaluations += 1;
+    let replay = case.replay_json(json!({"profile": profile.name(), "mask": mask, "mask_name": name}));
+    let c = match compile_masked(am, &case.src, profile, Some(mask)) {
+        Ok(Ok(c)) => c,
+        Ok(Err(_)) => {
+            res.count("masked_build_rejected");
+            res.inconclusive(format!("mask {name}: the program compiles with full asm optimisation but not with this mask"));
+            let _ = std::fs::remove_dir_all(am.last_dir());
+            return;
+        }
+        Err((loc, msg)) => {
+            res.violation(format!("masked-build-panic:{}", panic_signature(&loc, &msg)), format!("mask {name} ({}): compiler panicked at {loc}: {}", profile.name(), msg.chars().take(160).collect::<String>()), replay);
+            let _ = std::fs::remove_dir_all(am.last_dir());
+            return;
+        }
+    };
+    res.count("masks_compared");
+    res.count(&format!("mask.{name}"));
+    let differs = c.pkg.bytecode.bytes != full.pkg.bytecode.bytes;
+    if differs {
+        res.count("mask_changed_bytecode");
+        res.count(&format!("changed_bytecode.{name}"));
+    }
+    let mut any_returned = false;
+    for (k, d) in case.script_data.iter().enumerate() {
+        let o = run_script(&c.pkg.bytecode.bytes, d);
+        res.count("executions_compared");
+        let f = &full_obs[k];
+        if !f.outcome.reverted() {
+            any_returned = true;
+        }
+        if !(f.outcome.reverted() && o.outcome.reverted()) && !(f.outcome == o.outcome && f.logs == o.logs) {
+            res.violation(
+                format!("asm-opt-changes-behaviour:{name}:{:016x}", hash64(case.src.as_bytes())),
+                format!("[{} input {k}] fully optimised: {} / mask {name}: {}", profile.name(), f.short(), o.short()),
+                replay,
+            );
+            break;
+        }
+    }
+    if differs && any_returned {
+        res.note_nontrivial(hash64(format!("{}{}{mask}", case.src, profile.name()).as_bytes()));
+    }
+    if res.samples.len() < 2 {
+        res.sample(json!({"profile": profile.name(), "mask": name, "bytecode_len_full": full.pkg.bytecode.bytes.len(), "bytecode_len_masked": c.pkg.bytecode.bytes.len(), "source_head": case.src.lines().take(8).collect::<Vec<_>>()}));
+    }
+    am.remove(&c);
+}
+
+fn shard(ctx: &ShardCtx) -> ShardResult {
+    let mut res = ShardResult::default();
+    let mut am = Amortised::new(&ctx.work());
+    if let Err(e) = am.warm() {
+        res.harness_fault = Some(format!("std does not compile: {e}"));
+        return res;
+    }
+    let all_masks = masks();
+    let per = ctx.tier.pick(5usize, all_masks.len());
+    let clock = ctx.clock();
+    let mut i = ctx.first_index;
+    while clock.left() {
+        let mut scratch = ShardResult::default();
+        let case = case_at(ctx.seed ^ 0x0c07, ctx.shard, i / 2, 10, &mut scratch);
+        let profile = if i % 2 == 0 { Profile::Debug } else { Profile::Release };
+        ctx.begin_case(i, &format!("// origin: {:?} {}\n{}", case.origin, profile.name(), case.src), &res);
+        if let Ok(Ok(full)) = compile_masked(&mut am, &case.src, profile, None) {
+            let full_obs: Vec<Observation> = case.script_data.iter().map(|d| run_script(&full.pkg.bytecode.bytes, d)).collect();
+            // mask "none" always, plus a rotating selection of the others
+            let mut chosen = vec![0usize];
+            for j in 0..per.saturating_sub(1) {
+                chosen.push(1 + ((i as usize * 7 + j * 3) % (all_masks.len() - 1)));
+            }
+            chosen.sort();
+            chosen.dedup();
+            for m in chosen {
+                let (mask, name) = &all_masks[m];
+                run_one(&mut am, &case, profile, &full, &full_obs, *mask, name, &mut res);
+            }
+            am.remove(&full);
+        } else {
+            res.count("rejected");
+            let _ = std::fs::remove_dir_all(am.last_dir());
+        }
+        ctx.end_case();
+        i += 1;
+    }
+    res
+}
+
+fn replay(v: &Value) -> ShardResult {
+    let mut res = ShardResult::default();
+    let work = work_dir("C07").join("replay");
+    clean_dir(&work);
+    let mut am = Amortised::new(&work);
+    let Some(case) = case_from_replay(v) else {
+        res.harness_fault = Some("the generator no longer reproduces the recorded program".into());
+        return res;
+    };
+    let profile = if v["extra"]["profile"].as_str() == Some("release") { Profile::Release } else { Profile::Debug };
+    let mask = v["extra"]["mask"].as_u64().unwrap_or(0) as u32;
+    let name = v["extra"]["mask_name"].as_str().unwrap_or("?").to_string();
+    if let Ok(Ok(full)) = compile_masked(&mut am, &case.src, profile, None) {
+        let full_obs: Vec<Observation> = case.script_data.iter().map(|d| run_script(&full.pkg.bytecode.bytes, d)).collect();
+        run_one(&mut am, &case, profile, &full, &full_obs, mask, &name, &mut res);
+    }
+    res
+}
